@@ -534,6 +534,20 @@ func chainTx(n *Node, contracts *[]common.Address, t M) ([]byte, error) {
 	case "gov_upgrade":
 		// a software-upgrade proposal: the named upgrade handler of this binary runs at the plan height
 		gov := authtypes.NewModuleAddress("gov")
+		if str(t, "name") == "v1.7.6" {
+			// the handler was written for the accounts of one chain at one date: it reads the first lockup period of
+			// every clawback vesting account, so it is only proposed when every such account has one
+			okPre, ctx := true, n.Ctx()
+			n.App.AccountKeeper.IterateAccounts(ctx, func(acc authtypes.AccountI) bool {
+				if va, is := acc.(*vestingtypes.ClawbackVestingAccount); is && len(va.LockupPeriods) == 0 {
+					okPre = false
+				}
+				return !okPre
+			})
+			if !okPre {
+				return nil, fmt.Errorf("v1.7.6 handler not applicable: a vesting account without lockup periods")
+			}
+		}
 		up := &upgradetypes.MsgSoftwareUpgrade{Authority: gov.String(),
 			Plan: upgradetypes.Plan{Name: str(t, "name"), Height: n.Header.Height + num(t, "delta", 3)}}
 		msg, err := govv1.NewMsgSubmitProposal([]sdk.Msg{up}, sdk.NewCoins(coin("5000")), from.Addr.String(), "", "t", "s")
